@@ -208,3 +208,131 @@ Proof.
   { unfold bm_dist, bm_of. cbn [fst snd]. rewrite SC at 1. rewrite SE at 1. rewrite !flag_map_fst_snd, E'. reflexivity. }
   specialize (Hmin Hd'). lia.
 Qed.
+
+(** ** "The budget allows", spelled out
+
+    [flips k base] are exactly the bitmaps at Hamming distance [k] from [base]; so the
+    second-phase space around a first-phase result [p1] is: recorded bitmaps within
+    [min maxdist (length es)] flips of [fst p1], and simulated bitmaps that add to
+    [snd p1] exactly the entries the balance of the amounts demands. *)
+
+Fixpoint hamming (a b : list bool) : nat :=
+  match a, b with
+  | x :: a', y :: b' => ((if Bool.eqb x y then 0 else 1) + hamming a' b')%nat
+  | _, _ => O
+  end.
+
+Lemma flips_iff : forall base k x,
+  In x (flips k base) <-> length x = length base /\ hamming x base = k.
+Proof.
+  induction base as [|b t IH]; intros k x; cbn [flips].
+  - split.
+    + intro H. destruct k; [destruct H as [<-|[]]; split; reflexivity|contradiction].
+    + intros [L Hh]. destruct x; [|discriminate]. cbn in Hh. subst k. left. reflexivity.
+  - split.
+    + intro H. apply in_app_or in H. destruct H as [H|H].
+      * apply in_map_iff in H. destruct H as [y [<- Hy]]. apply IH in Hy. destruct Hy as [L Hh].
+        cbn [length hamming]. rewrite Bool.eqb_reflx. split; [f_equal; exact L|exact Hh].
+      * destruct k as [|k']; [contradiction|]. apply in_map_iff in H. destruct H as [y [<- Hy]].
+        apply IH in Hy. destruct Hy as [L Hh]. cbn [length hamming].
+        replace (Bool.eqb (negb b) b) with false by (destruct b; reflexivity).
+        split; [f_equal; exact L|rewrite Hh; reflexivity].
+    + intros [L Hh]. destruct x as [|a y]; [discriminate|]. cbn [length] in L. cbn [hamming] in Hh.
+      apply in_or_app. destruct (Bool.eqb a b) eqn:E.
+      * apply Bool.eqb_prop in E. subst a. left. apply in_map. apply IH. split; [lia|exact Hh].
+      * right. destruct k as [|k']; [discriminate|].
+        replace a with (negb b) by (destruct a; destruct b; try reflexivity; discriminate).
+        apply in_map. apply IH. split; [lia|lia].
+Qed.
+
+Definition p2_budget (es : list event) (maxdist : Z) : nat := Z.to_nat (Z.min maxdist (Z.of_nat (length es))).
+Definition p2_bd (es : list event) (cs : list sim_ev) (p1 : bitmaps) (e : list bool) : Z :=
+  Z.of_nat (count_true e) - Z.of_nat (count_true (snd p1)) - amount_diff es cs.
+
+Theorem phase2_space_iff : forall es cs maxdist p1 e m,
+  In (e, m) (phase2_space es cs maxdist p1) <->
+    length e = length (fst p1) /\ (hamming e (fst p1) <= p2_budget es maxdist)%nat /\
+    0 <= p2_bd es cs p1 e /\
+    length m = length (snd p1) /\ hamming m (snd p1) = Z.to_nat (p2_bd es cs p1 e) /\
+    bm_balanced es cs (e, m) = true.
+Proof.
+  intros es cs maxdist p1 e m. unfold phase2_space. rewrite in_flat_map. fold (p2_budget es maxdist). split.
+  - intros [e0 [He H]]. fold (p2_bd es cs p1 e0) in H.
+    destruct (p2_bd es cs p1 e0 <? 0) eqn:EB; [contradiction|]. apply Z.ltb_ge in EB.
+    apply filter_In in H. destruct H as [H Hb]. apply in_map_iff in H. destruct H as [m0 [Hm Hm0]].
+    injection Hm as -> ->. apply flips_iff in Hm0. destruct Hm0 as [Lm Hm].
+    unfold flips_upto in He. apply in_flat_map in He. destruct He as [k [Hk He]].
+    apply flips_iff in He. destruct He as [Le Hh]. apply in_seq in Hk.
+    repeat split; try assumption. lia.
+  - intros [Le [Hh [EB [Lm [Hm Hb]]]]]. exists e. split.
+    + unfold flips_upto. apply in_flat_map. exists (hamming e (fst p1)). split; [apply in_seq; lia|].
+      apply flips_iff. split; [exact Le|reflexivity].
+    + fold (p2_bd es cs p1 e). destruct (p2_bd es cs p1 e <? 0) eqn:EB'; [apply Z.ltb_lt in EB'; lia|].
+      apply filter_In. split; [|exact Hb]. apply in_map. apply flips_iff. split; assumption.
+Qed.
+
+Lemma hamming_set : forall a1 a2 q,
+  length q = length (a1 ++ false :: a2) -> nth (length a1) q true = false ->
+  hamming (a1 ++ true :: a2) q = S (hamming (a1 ++ false :: a2) q).
+Proof.
+  induction a1 as [|x a1 IH]; intros a2 [|y q] L N; cbn [app length] in L; try discriminate.
+  - cbn [length nth] in N. subst y. reflexivity.
+  - cbn [length nth] in N. cbn [app hamming]. rewrite (IH a2 q) by (try assumption; lia). lia.
+Qed.
+
+Lemma count_true_set : forall a1 a2,
+  count_true (a1 ++ true :: a2) = S (count_true (a1 ++ false :: a2)).
+Proof.
+  intros a1 a2. unfold count_true. rewrite !filter_app, !app_length. cbn [filter length]. lia.
+Qed.
+
+Lemma bm_of_app_cons : forall A (l1 : list (bool * A)) b x l2, bm_of (l1 ++ (b, x) :: l2) = bm_of l1 ++ b :: bm_of l2.
+Proof. intros. unfold bm_of. rewrite map_app. reflexivity. Qed.
+
+(** A result of the search that pairs two unrelated events has used up its budget: if the
+    first phase left both events enabled, the recorded bitmap of the result already differs
+    from the first-phase one in [min DisabledEventsMaxDistance (length es)] positions, so
+    one more recorded entry could not be left out.  Contrapositive: with one flip to spare,
+    no result pairs events that agree in neither type nor digest. *)
+Theorem search_result_unrelated_pair_budget : forall es cs maxdist d p cs1 c cs2 es1 e es2,
+  In (d, p) (search_results es cs maxdist) ->
+  Z.of_nat (length cs + length es) * (2 * BIGN + 2) < W64 ->
+  flag (snd p) cs = cs1 ++ (false, c) :: cs2 ->
+  flag (fst p) es = es1 ++ (false, e) :: es2 ->
+  length (en cs1) = length (en es1) ->
+  unrelated c e = true ->
+  exists d1 p1,
+    In (d1, p1) (argmins (scored es cs (phase1_cands es cs))) /\
+    In p (phase2_space es cs maxdist p1) /\
+    (nth (length es1) (fst p1) true = false -> nth (length cs1) (snd p1) true = false ->
+     (p2_budget es maxdist <= hamming (fst p) (fst p1))%nat).
+Proof.
+  intros es cs maxdist d p cs1 c cs2 es1 e es2 H Hb Fc Fe HL HU.
+  pose proof (search_result_balanced _ _ _ _ _ H) as [L1 [L2 _]].
+  destruct (search_result_no_unrelated_pair _ _ _ _ _ _ _ _ _ _ _ H Hb Fc Fe HL HU) as [d1 [p1 [H1 [H2 H3]]]].
+  exists d1, p1. split; [exact H1|]. split; [exact H2|]. intros Ne Nc.
+  destruct (Nat.le_gt_cases (p2_budget es maxdist) (hamming (fst p) (fst p1))) as [K|K]; [exact K|].
+  exfalso. apply H3. clear H3.
+  assert (Pe : fst p = bm_of es1 ++ false :: bm_of es2).
+  { rewrite <- (map_fst_flag _ (fst p) es L1), Fe. apply bm_of_app_cons. }
+  assert (Pc : snd p = bm_of cs1 ++ false :: bm_of cs2).
+  { rewrite <- (map_fst_flag _ (snd p) cs L2), Fc. apply bm_of_app_cons. }
+  destruct p as [pe pc]. cbn [fst snd] in *. subst pe pc.
+  apply phase2_space_iff in H2. destruct H2 as [Le [Hh [EB [Lm [Hm Bal]]]]].
+  rewrite !bm_of_app_cons. apply phase2_space_iff.
+  assert (LE1 : length (bm_of es1) = length es1) by (unfold bm_of; apply map_length).
+  assert (LC1 : length (bm_of cs1) = length cs1) by (unfold bm_of; apply map_length).
+  assert (HE : hamming (bm_of es1 ++ true :: bm_of es2) (fst p1) = S (hamming (bm_of es1 ++ false :: bm_of es2) (fst p1))).
+  { apply hamming_set; [symmetry; exact Le|rewrite LE1; exact Ne]. }
+  assert (HC : hamming (bm_of cs1 ++ true :: bm_of cs2) (snd p1) = S (hamming (bm_of cs1 ++ false :: bm_of cs2) (snd p1))).
+  { apply hamming_set; [symmetry; exact Lm|rewrite LC1; exact Nc]. }
+  unfold p2_bd in *. unfold bm_balanced in *. cbn [fst snd] in *.
+  rewrite !count_true_set. apply Z.eqb_eq in Bal.
+  repeat split.
+  - rewrite <- Le. rewrite !app_length. reflexivity.
+  - rewrite HE. lia.
+  - lia.
+  - rewrite <- Lm. rewrite !app_length. reflexivity.
+  - rewrite HC, Hm. lia.
+  - apply Z.eqb_eq. lia.
+Qed.
